@@ -1038,6 +1038,41 @@ def istypeddict(obj: tp.Any) -> bool:
 
 
 @compat.cache
+def required_keys(obj: tp.Any) -> frozenset[str]:
+    """The keys a [`typing.TypedDict`][] requires (none, for anything else).
+
+    Note:
+        The runtime's `__required_keys__` cannot see a `Required[...]` or
+        `NotRequired[...]` written in a string annotation
+        (`from __future__ import annotations`); the evaluated hints can.
+
+    Examples:
+        >>> from typing import TypedDict
+        >>>
+        >>> class FooMap(TypedDict):
+        ...     bar: str
+        ...     baz: "te.NotRequired[int]"
+        ...
+        >>> sorted(required_keys(FooMap))
+        ['bar']
+    """
+    keys = set(getattr(obj, "__required_keys__", ()))
+    if not istypeddict(obj):
+        return frozenset(keys)
+    try:
+        hints = tp.get_type_hints(obj, include_extras=True)
+    except (NameError, TypeError):
+        hints = {}
+    for key, hint in hints.items():
+        marker = tp.get_origin(hint)
+        if marker is te.NotRequired:
+            keys.discard(key)
+        elif marker is te.Required:
+            keys.add(key)
+    return frozenset(keys)
+
+
+@compat.cache
 def istypedtuple(obj: type) -> compat.TypeIs[type[tp.NamedTuple]]:
     """Check whether an object is a "typed" tuple ([`typing.NamedTuple`][]).
 
